@@ -220,10 +220,21 @@ func modelRunBubble(tp *core.Tape, e *core.Env, cfg nodeCfg) (ops []opRec) {
 					req[job] = append(req[job], MkTarget(h, job, state, int64(tp.Choose("est_series", 5)*3), int64(tp.Choose("est_total", 5)*4)))
 				}
 			}
+			// a job that is named in the request with an empty list is assigned nothing
+			if mode != 2 && tp.Bool("job_key_with_empty_list", 1, 4) {
+				job := Jobs[tp.Choose("empty_list_job", len(Jobs))]
+				if len(req[job]) == 0 {
+					req[job] = []*target.Target{}
+					e.Probe("job_key_with_empty_list")
+				}
+			}
 			var desc []string
 			cur = map[uint64]*target.Target{}
 			curJob = map[uint64]string{}
 			for _, job := range Jobs {
+				if ts, ok := req[job]; ok && len(ts) == 0 {
+					desc = append(desc, job+"/-")
+				}
 				for _, t := range req[job] {
 					cur[t.Hash] = t
 					curJob[t.Hash] = job
